@@ -34,3 +34,7 @@ def run(ctx):
     H.r14_6_get_attribute_guarded(ctx)
     H.r14_9_get_value_text(ctx)
     H.r14_11_built_nodes(ctx)
+    from . import round3 as R3
+    R3.r14_12_same_constructors(ctx)
+    R3.r14_13_value_as_given(ctx)
+    R3.r14_14_exact_key_match(ctx, 'R14.14')
